@@ -36,7 +36,9 @@ def add_family(g, family, kind, oracle, share=0.12, nontrivial=True):
         return nontrivial if is_mine(case) else old['nontrivial'](case, impl)
 
     def classify(case, failure):
-        return None if is_mine(case) or not old['classify'] else old['classify'](case, failure)
+        if is_mine(case):
+            return family.classify(case, failure) if hasattr(family, 'classify') else None
+        return old['classify'](case, failure) if old['classify'] else None
 
     def shrink(case):
         if is_mine(case) or not old['shrink']:
